@@ -37,6 +37,10 @@ CLAIMED = {
         text='Deductive proof over the real text of LineIndex::line_col, Index<LineNr>::index and the Sub impls: for every text, every index built from it and every offset in it, line = number of newlines before the offset and column = offset - start of that line; no underflow, no out-of-bounds.',
         note='Partial: LineIndex::new (iterator chain) is assumed to build the index (index_wf); TextSize modelled as u32; std partition_point contract assumed; the "file:line:col" rendering is not under contract.',
         ref='DESIGN.md 5 (C25)'),
+    'C27': dict(
+        text='Deductive proof over the real text of add_part and MangledPartKind::to_code: add_part appends exactly <decimal length><text>, with an underscore put in front of texts that start with a digit or an underscore; this per-part encoding is proved injective and uniquely decodable when followed by anything (prefix-freeness lemma), and kind letters are pairwise different upper-case letters.',
+        note='Partial: the list of parts (create_mangled_for_* iterator chains), the table-of-contents assembly in create_mangled_for_file and FileName::get_components (which maps `.` to `-`: `a.b/` and `a-b/` still collide) are not under contract. Assumed: usize::to_string is a digits-only decimal text without leading zero (axioms D1-D3); part texts are ASCII.',
+        ref='DESIGN.md 5 (C27)'),
 }
 
 NOT_APPLICABLE = {
@@ -66,7 +70,6 @@ PENDING = {
     'C19': 'unit not built yet (SysV classification)',
     'C25': 'unit not built yet (LineIndex::line_col)',
     'C26': 'unit not built yet (TopoSort representation invariant)',
-    'C27': 'unit not built yet (mangling injectivity)',
 }
 
 
